@@ -6,6 +6,7 @@ import (
 	"go/constant"
 	"go/token"
 	"go/types"
+	"os"
 	"strconv"
 	"strings"
 
@@ -369,8 +370,27 @@ func (e *Env) selector(n *ast.SelectorExpr) *Val {
 			}
 		}
 	}
+	// field of a package-level struct variable (e.g. ghost.x): load just that leaf
+	if id, ok := n.X.(*ast.Ident); ok {
+		if _, bound := e.vars[id.Name]; !bound && e.lookupCellQuick(id.Name) == nil {
+			if g := e.globalByName(id.Name); g != nil {
+				if _, isStruct := g.Type().(*types.Pointer).Elem().Underlying().(*types.Struct); isStruct {
+					if p := e.lvalueOrNil(n); p != nil {
+						return c.Load(e.st, p)
+					}
+				}
+			}
+		}
+	}
 	base := e.eval(n.X)
 	return e.field(base, n.Sel.Name)
+}
+
+func (e *Env) lookupCellQuick(name string) *ssa.Alloc {
+	if !e.cells {
+		return nil
+	}
+	return e.lookupCell(name)
 }
 
 func importAlias(pkg *ssa.Package, name string) string {
@@ -855,40 +875,55 @@ func (c *Ctx) callPure(e *Env, fn *ssa.Function, args []*Val) *Val {
 	if len(fn.Blocks) == 0 {
 		fail("spec function %s has no body", fn.Name())
 	}
-	// closed spec functions over scalars become one SMT define-fun (shared, compact)
-	if name, ok := c.specDefine(e, fn); ok {
+	// spec functions become one SMT define-fun over their scalar parameters and the heap
+	// components they read (shared, compact, and syntactically equal across states with equal heaps)
+	if sd := c.specDefine(e, fn); sd != nil {
 		var ts []string
 		for _, a := range args {
 			ts = append(ts, a.Term)
 		}
-		return &Val{T: fn.Signature.Results().At(0).Type(), Term: app(name, ts...)}
+		for _, l := range sd.leaves {
+			ts = append(ts, c.H(e.st, l[0], l[1]))
+		}
+		return &Val{T: fn.Signature.Results().At(0).Type(), Term: app(sd.name, ts...)}
 	}
 	return c.callPureInline(e, fn, args)
 }
 
-func (c *Ctx) specDefine(e *Env, fn *ssa.Function) (string, bool) {
+type specDef struct {
+	name   string
+	leaves [][2]string // heap components read: (leaf, sort)
+}
+
+func (c *Ctx) specDefine(e *Env, fn *ssa.Function) *specDef {
 	if c.specFuns == nil {
-		c.specFuns = map[*ssa.Function]string{}
+		c.specFuns = map[*ssa.Function]*specDef{}
 	}
 	if n, ok := c.specFuns[fn]; ok {
-		return n, n != ""
+		return n
 	}
-	c.specFuns[fn] = ""
+	c.specFuns[fn] = nil
 	if fn.Signature.Results().Len() != 1 || sortOf(fn.Signature.Results().At(0).Type()) == "" {
-		return "", false
+		return nil
 	}
 	var params []string
 	var args []*Val
 	for _, p := range fn.Params {
 		s := sortOf(p.Type())
 		if s == "" {
-			return "", false
+			return nil
 		}
 		pn := "sp_" + sanitizeHint(p.Name())
 		params = append(params, "("+pn+" "+s+")")
 		args = append(args, &Val{T: p.Type(), Term: pn})
 	}
 	c.quant++
+	savePh := c.phLeaves
+	c.phLeaves = nil
+	pst := &State{regs: map[regKey]*Val{}, heap: map[string]string{}, placeholder: true}
+	ne := *e
+	ne.st = pst
+	ne.old = pst
 	var body *Val
 	func() {
 		defer func() {
@@ -900,17 +935,41 @@ func (c *Ctx) specDefine(e *Env, fn *ssa.Function) (string, bool) {
 				panic(r)
 			}
 		}()
-		body = c.callPureInline(e, fn, args)
+		body = c.callPureInline(&ne, fn, args)
 	}()
+	leaves := c.phLeaves
+	c.phLeaves = savePh
 	c.quant--
 	if body == nil || body.Term == "" || strings.ContainsAny(body.Term, "!@") {
-		return "", false
+		if os.Getenv("LVC_DEBUG") != "" {
+			t := ""
+			if body != nil {
+				t = body.Term
+				if i := strings.IndexAny(t, "!@"); i >= 0 {
+					lo := i - 60
+					if lo < 0 {
+						lo = 0
+					}
+					hi := i + 40
+					if hi > len(t) {
+						hi = len(t)
+					}
+					t = t[lo:hi]
+				}
+			}
+			fmt.Fprintf(os.Stderr, "specDefine(%s) not closed: %s\n", fn.Name(), t)
+		}
+		return nil
+	}
+	for _, l := range leaves {
+		params = append(params, "("+sym("$h."+l[0])+" "+l[1]+")")
 	}
 	name := sym("spec." + fn.Name())
 	c.declared[name] = "fun"
 	c.decls = append(c.decls, "(define-fun "+name+" ("+strings.Join(params, " ")+") "+sortOf(fn.Signature.Results().At(0).Type())+" "+body.Term+")")
-	c.specFuns[fn] = name
-	return name, true
+	sd := &specDef{name: name, leaves: leaves}
+	c.specFuns[fn] = sd
+	return sd
 }
 
 func (c *Ctx) callPureInline(e *Env, fn *ssa.Function, args []*Val) *Val {
